@@ -40,7 +40,21 @@ type c03Case struct {
 	// the serving peer bounds the age of its handler contexts (generously: nothing expires):
 	// "" | config (PeerConfig.DefaultContextAge) | session (SetContextAge in a PostAccept hook)
 	CtxAge string
+	// size of the process-wide goroutine pool (erpc.SetGopool) the serving peer runs on; 0 = default.
+	// The reader of the serving session occupies one of them, every handler that has not returned another.
+	Pool int
+	// the serving session starts with a short session age (PeerConfig.DefaultSessionAge) that is
+	// prolonged on the running session before it elapses (SetSessionAge to one minute / to
+	// unlimited); the frames arrive after the initial age has passed: "" | minute | unlimited
+	SessAge string
 }
+
+// c03InitialAge is the session age a "prolonged" session starts with.
+// (the framework measures session ages with a clock of 100 ms granularity)
+const c03InitialAge = 150 * time.Millisecond
+
+// c03Unrealised is returned by runC03 when the machine was too slow to set up a timed case.
+const c03Unrealised = "harness: timed case not realised"
 
 var callStages = []string{"PostReadCallHeader", "PreReadCallBody", "PostReadCallBody"}
 var pushStages = []string{"PostReadPushHeader", "PreReadPushBody", "PostReadPushBody"}
@@ -226,12 +240,19 @@ func (f c03Frame) msg(callRoute, pushRoute string) vt.Msg {
 
 func runC03(c c03Case, protos []vt.NamedProto) []string {
 	vt.Init()
+	if c.Pool > 0 {
+		erpc.SetGopool(c.Pool, time.Minute)
+		defer erpc.SetGopool(0, 0)
+	}
 	s := newLib()
 	w := vt.NewWorld()
 	defer w.Close()
 	cfg := erpc.PeerConfig{}
 	if c.CtxAge == "config" {
 		cfg.DefaultContextAge = time.Minute
+	}
+	if c.SessAge != "" {
+		cfg.DefaultSessionAge = c03InitialAge
 	}
 	plugs := []erpc.Plugin{&vetoPlugin{name: "veto"}}
 	if c.CtxAge == "session" {
@@ -251,6 +272,28 @@ func runC03(c c03Case, protos []vt.NamedProto) []string {
 
 	var fails []string
 	failf := func(format string, a ...interface{}) { fails = append(fails, fmt.Sprintf(format, a...)) }
+
+	if c.SessAge != "" {
+		// the age the session started with is replaced before it elapses; the session lives on.
+		// A push that has been handled shows that the reader of the session is running (it
+		// picks up the session age when it starts).
+		warm := c03Frame{Kind: "push", Route: "lib", Act: "ret", Body: "ok", Codec: "json", Seq: -77003, Rid: "warm"}
+		raw.Send(warm.msg(callRoute, pushRoute))
+		if !vt.WaitUntilFor(c03InitialAge/3, func() bool { return s.Pushes("warm") == 1 }) {
+			return []string{c03Unrealised} // too slow for the initial age: nothing to check
+		}
+		if c.SessAge == "minute" {
+			sess.(erpc.PreSession).SetSessionAge(time.Minute)
+		} else {
+			sess.(erpc.PreSession).SetSessionAge(0)
+		}
+		time.Sleep(c03InitialAge + 5*time.Millisecond)
+		if !sess.Health() || raw.EOF() {
+			// the machine stalled for longer than the initial age between ServeConn and
+			// SetSessionAge: the session legitimately expired; nothing to check
+			return []string{c03Unrealised}
+		}
+	}
 
 	if c.PriorDeadline != "none" {
 		// what the session sent earlier - and with which deadline - has no bearing on the replies it owes now
@@ -442,6 +485,10 @@ func runC03(c c03Case, protos []vt.NamedProto) []string {
 			if f.handlerExpected() {
 				want = 1
 			}
+			if f.Kind == "push" && c.Pool > 0 && n == 0 {
+				// a push carries no acknowledgement; the property bounds its handler invocations by one
+				continue
+			}
 			if n != want {
 				failf("frame %+v: handler invoked %d times, want %d", f, n, want)
 			}
@@ -486,6 +533,68 @@ func TestC03Dispatch(t *testing.T) {
 		}
 		vt.Journal("C03", c)
 		if fails := runC03(c, protos); len(fails) > 0 {
+			t.Fatalf("C03 violated (%d findings), first: %s\ncase: %+v", len(fails), fails[0], c)
+		}
+	})
+}
+
+// TestC03SmallPool: the same dispatch model on a process whose goroutine pool was configured
+// small (erpc.SetGopool, a documented knob): gated handlers hold the few goroutines there are
+// while further frames arrive. However the framework schedules the work, every CALL is still
+// answered exactly once and handled at most once on a connection that stays up.
+func TestC03SmallPool(t *testing.T) {
+	rec := vt.NewRec(t, "C03", "small-pool", "the dispatch cases of C03 (1-14 frames, more of them with gated handlers) against a serving peer whose process-wide goroutine pool was set to 2 / 3 / 4 / 6 goroutines with erpc.SetGopool before the peer was created; the reader of the session holds one of them and every gated handler another until the harness releases it, so frames arrive while no goroutine is free; same reference model: every CALL answered exactly once with the modelled status, handler invocations per request id, a fence call answered afterwards, graceful close returns; non-trivial = more gated handlers than free goroutines; distinct by the frame list")
+	protos := vt.StreamProtos()
+	defer erpc.SetGopool(0, 0)
+	rapid.Check(t, func(t *rapid.T) {
+		c := genC03(t, protos)
+		c.Pool = rapid.SampledFrom([]int{2, 2, 3, 4, 6}).Draw(t, "pool")
+		extra := rapid.IntRange(0, 6).Draw(t, "extra")
+		for i := 0; i < extra; i++ {
+			c.Frames = append(c.Frames, c03Frame{Kind: rapid.SampledFrom([]string{"call", "call", "push"}).Draw(t, "xkind"), Route: "lib", Act: rapid.SampledFrom([]string{"slow", "slow", "ret"}).Draw(t, "xact"), Body: "ok", Codec: "json", Seq: int32(5000 + i), Rid: fmt.Sprintf("x%d", i)})
+		}
+		gated := 0
+		killer := false
+		for _, f := range c.Frames {
+			killer = killer || f.killer()
+			if f.Kind == "call" && f.Act == "slow" && f.handlerExpected() {
+				gated++
+			}
+		}
+		busy := gated > c.Pool-1
+		rec.Case(fmt.Sprintf("%+v", c), busy && !killer, fmt.Sprintf("pool=%d", c.Pool), fmt.Sprintf("killer=%v", killer), fmt.Sprintf("gated>free=%v", busy))
+		if rec.WantSample() && busy && !killer {
+			rec.Sample(c)
+		}
+		vt.Journal("C03", c)
+		if fails := runC03(c, protos); len(fails) > 0 {
+			t.Fatalf("C03 violated (%d findings), first: %s\ncase: %+v", len(fails), fails[0], c)
+		}
+	})
+}
+
+// TestC03SessionAge: the serving session starts with a short session age that is renewed on
+// the running session (SetSessionAge, to one minute or to unlimited) before it elapses; the
+// frames arrive after the initial age has passed. The session is live, so the dispatch model
+// holds unchanged.
+func TestC03SessionAge(t *testing.T) {
+	rec := vt.NewRec(t, "C03", "session-age", "the dispatch cases of C03 against a serving session created with PeerConfig.DefaultSessionAge = 150 ms whose age is renewed through SetSessionAge (one minute / unlimited) once its reader runs (a handled push shows that) and before the initial age elapses; the generated frames arrive 5 ms after the initial age has passed, on a session that is healthy; with and without a context age; same reference model (every CALL answered exactly once with the modelled status, handlers at most once, fence call answered); a case in which the machine was too slow to renew the age in time is counted as unrealised and decides nothing; non-trivial = realised; distinct by the frame list")
+	protos := vt.StreamProtos()
+	rapid.Check(t, func(t *rapid.T) {
+		c := genC03(t, protos)
+		c.SessAge = rapid.SampledFrom([]string{"minute", "unlimited"}).Draw(t, "sessage")
+		c.PriorDeadline = "none"
+		vt.Journal("C03", c)
+		fails := runC03(c, protos)
+		if len(fails) == 1 && fails[0] == c03Unrealised {
+			rec.Case(fmt.Sprintf("%+v", c), false, "unrealised")
+			return
+		}
+		rec.Case(fmt.Sprintf("%+v", c), true, "renewed="+c.SessAge, "ctxage="+c.CtxAge)
+		if rec.WantSample() {
+			rec.Sample(c)
+		}
+		if len(fails) > 0 {
 			t.Fatalf("C03 violated (%d findings), first: %s\ncase: %+v", len(fails), fails[0], c)
 		}
 	})
